@@ -7,6 +7,7 @@ import Wencry.Proofs.PipeCtl
 import Wencry.Proofs.PipeProgress
 import Wencry.Proofs.SeqGlue
 import Wencry.Proofs.PipeSpurious
+import Wencry.Proofs.PipeFine
 namespace Wencry.Props.C04
 open Wencry Wencry.Model.Pipe Wencry.Model.PipeSpurious Wencry.Model.IoBuffer Wencry.Proofs.PipeCtl Wencry.Proofs.PipeProgress
 
@@ -74,5 +75,43 @@ theorem no_infinite_execution_with_finitely_many_spurious_wakeups (f : σ → Bl
 /-- non-vacuity: a spurious wake-up is possible in a reachable state (worker 0 goes to sleep in its first wait, then is woken) -/
 example : (spurious 1 (runSched toyF (fun _ => ([], .nodata)) true 1 (init 1 (fun _ => 0)) [some 0]) (some 0)).isSome = true := by
   decide +kernel
+
+/-! ### At the level of the mutex and condition-variable operations (Model/PipeFine.lean)
+
+Every critical section of `bufferctrl` is split into acquire / test or write / notify / release, a thread can be preempted while it
+holds the mutex, and the unsynchronised accesses can fall inside another thread's critical section. The fine system refines the
+coarse one (`mutex_level_step_is_a_coarse_step_or_invisible`), hence: -/
+section fine
+open Wencry.Model.PipeFine Wencry.Proofs.PipeFine
+
+theorem mutex_level_step_is_a_coarse_step_or_invisible (f : σ → Block → σ × Block) (inp : Input) (ispad : Bool) (T : Nat) (s s' : FSt σ)
+    (tid : Tid) (h : FInv T s) (hs : fstep f inp ispad T s tid = some s') :
+    Model.PipeFine.abs s' = Model.PipeFine.abs s ∨ step f inp ispad T (Model.PipeFine.abs s) tid = some (Model.PipeFine.abs s') :=
+  fine_step_simulated f inp ispad T s s' tid h hs
+
+theorem mutex_level_states_are_coarse_reachable (f : σ → Block → σ × Block) (inp : Input) (hwf : inp.WF) (ispad : Bool) (T : Nat) (hT : 0 < T)
+    (ws0 : Nat → σ) (s : FSt σ) (h : FReach f inp ispad T ws0 s) : Reach f inp ispad T ws0 (Model.PipeFine.abs s) :=
+  freach_abs_reach f inp hwf ispad T hT ws0 s h
+
+/-- no deadlock at mutex level (a thread holding a mutex is never blocked; lost wake-ups are impossible because a waiter releases the
+    mutex and blocks in one step and every state change is made and notified under the mutex) -/
+theorem no_deadlock_at_mutex_level (f : σ → Block → σ × Block) (inp : Input) (hwf : inp.WF) (ispad : Bool) (T : Nat) (hT : 0 < T)
+    (ws0 : Nat → σ) (s : FSt σ) (h : FReach f inp ispad T ws0 s) : fAllDone T s ∨ ∃ tid, (fstep f inp ispad T s tid).isSome :=
+  fine_deadlock_free f inp hwf ispad T hT ws0 s h
+
+/-- no infinite execution at mutex level -/
+theorem no_infinite_execution_at_mutex_level (f : σ → Block → σ × Block) (inp : Input) (hwf : inp.WF) (ispad : Bool) (P T : Nat) (hT : 0 < T)
+    (hP : FirstNonFull inp P) (ws0 : Nat → σ) (run : Nat → FSt σ) (tids : Nat → Tid) (h0 : run 0 = finit T ws0)
+    (hstep : ∀ n, fstep f inp ispad T (run n) (tids n) = some (run (n + 1))) : False :=
+  fine_no_infinite_run f inp hwf ispad P T hT hP ws0 run tids h0 hstep
+
+/-- non-vacuity: a round-robin schedule of the mutex-level system on a two-chunk input with two workers terminates with the
+    sequential output (kernel evaluation) -/
+example : let inp : Input := fun p => if p = 0 then ([Block.zero], .full) else if p = 1 then ([Block.zero], .final) else ([], .nodata)
+    let s := frunSched toyF inp true 2 (finit 2 (fun _ => 0)) (List.replicate 120 [none, some 0, some 1]).flatten
+    s.fio = .done ∧ s.fw 0 = .done ∧ s.fw 1 = .done ∧ s.d.nexp = 2 ∧ s.d.viol = false ∧ s.lock 0 = none ∧ s.lock 1 = none := by
+  decide +kernel
+
+end fine
 
 end Wencry.Props.C04
